@@ -71,18 +71,6 @@ theorem union_spec (a b : View) (ha : Faithful a) (hb : Faithful b) :
   split
   · refine ⟨?_, fun k => ?_⟩
     · rw [List.nodup_append]
-      refine ⟨ha.nodup, dba.1, fun x hx y hy hxy => ?_⟩
-      subst hxy; exact ((dba.2 x).1 hy).2 hx
-    · rw [List.mem_append, dba.2 k]
-      constructor
-      · rintro (h | ⟨h, _⟩); exact Or.inl h; exact Or.inr h
-      · rintro (h | h)
-        · exact Or.inl h
-        · by_cases hka : k ∈ a.iter
-          · exact Or.inl hka
-          · exact Or.inr ⟨h, hka⟩
-  · refine ⟨?_, fun k => ?_⟩
-    · rw [List.nodup_append]
       refine ⟨hb.nodup, dab.1, fun x hx y hy hxy => ?_⟩
       subst hxy; exact ((dab.2 x).1 hy).2 hx
     · rw [List.mem_append, dab.2 k]
@@ -93,6 +81,18 @@ theorem union_spec (a b : View) (ha : Faithful a) (hb : Faithful b) :
           · exact Or.inl hkb
           · exact Or.inr ⟨h, hkb⟩
         · exact Or.inl h
+  · refine ⟨?_, fun k => ?_⟩
+    · rw [List.nodup_append]
+      refine ⟨ha.nodup, dba.1, fun x hx y hy hxy => ?_⟩
+      subst hxy; exact ((dba.2 x).1 hy).2 hx
+    · rw [List.mem_append, dba.2 k]
+      constructor
+      · rintro (h | ⟨h, _⟩); exact Or.inl h; exact Or.inr h
+      · rintro (h | h)
+        · exact Or.inl h
+        · by_cases hka : k ∈ a.iter
+          · exact Or.inl hka
+          · exact Or.inr ⟨h, hka⟩
 
 theorem symmetric_difference_spec (a b : View) (ha : Faithful a) (hb : Faithful b) :
     (symmetricDifference a b).Nodup ∧
@@ -144,6 +144,6 @@ example :
     let b := viewOf { main := { buckets := 16, ents := [⟨9, 0, 0, 0⟩], gl := 9 },
                       lo := some { buckets := 4, ents := [⟨2, 0, 0, 0⟩, ⟨3, 0, 0, 0⟩], cursor := 2 } } [9, 2, 3]
     (union a b, intersection a b, difference a b, symmetricDifference a b, isSubset a b, isDisjoint a b)
-      = ([9, 2, 3, 1], [2], [1], [1, 9, 3], false, false) := by decide
+      = ([1, 2, 9, 3], [2], [1], [1, 9, 3], false, false) := by decide
 
 end Griddle.C13
